@@ -23,6 +23,7 @@ FAMILIES = {
     'strings': 'pvf.contracts.strings',
     'normalize': 'pvf.contracts.layout_norm',
     'context': 'pvf.contracts.context',
+    'config': 'pvf.contracts.config',
 }
 
 
